@@ -1,5 +1,6 @@
 import DhcpProofs.Lemmas.ClientTimed
 import DhcpProofs.Lemmas.ClientLTSProgress
+import DhcpProofs.Lemmas.ClientLTSRank
 /-
   C11 — client calls always complete: timeout, cancellation, Close, cleanup.
   Property theorems only.
@@ -166,11 +167,18 @@ def C11_close_rank_full (cfg : Cfg) : Prop :=
   ∃ rank : State → Nat, ∀ s s' l, Reachable cfg s → s.closed = true → isEnv l = false →
     step cfg s l = some s' → rank s' < rank s
 
-/-! `C11_close_rank_full` is not proved: a single rank needs the sum of the
-per-caller measures over the (finite but unbounded) set of callers that have
-been started, i.e. a sum over the support of the `callers` map; what is proved
-instead is the family `mu i` above (`C11_close_variant`), which gives the same
-conclusion — finitely many steps per process after Close — without the sum. -/
+/-- **C11 (Close: one rank for the whole client).** `rank` = the receive loop's
+potential once, plus the program-counter and buffer part of every caller that
+was ever started (finitely many: `cbound`).  Every step of the client itself -
+receive loop, Close's wait, any caller - in a closed reachable state lowers it:
+a step changes the part of at most one caller (`cpart_frame`: its own, or for
+`rxDeliver` that of the owner of the registration delivered into) and that
+caller's part together with the loop's potential goes down (`mu_strict`).  So
+after Close the client makes at most `rank s` further steps of its own, whatever
+the environment does in between only by adding datagrams or callers. -/
+theorem C11_close_rank (cfg : Cfg) (hf : cfg.cancelChecksOwner = true) : C11_close_rank_full cfg :=
+  ⟨rank, fun s s' l hr hc hl h => rank_decreases cfg s s' l hc (reach_all cfg hf s hr).w hl h⟩
+
 
 /-! Non-vacuity: a reachable closed state with the loop parked on a full
 channel while holding the mutex (cap 0, matcher not yet evaluated). -/
@@ -180,6 +188,12 @@ def cfgPark : Cfg :=
 def parkTrace : List Label :=
   [.call 0, .lock 0, .register 0, .transmit 0, .arrive ⟨5, true, 0⟩, .arrive ⟨5, true, 0⟩,
    .rxRead, .rxPass, .rxLock, .rxDeliver, .rxUnlock, .take 0, .rxRead, .rxPass, .rxLock, .close]
+
+/-- the rank in numbers on that parked state (loop in `sending`: 8, Close not yet
+returned: 1, caller 0 in `matching`: 19), and one step of the loop later -/
+example : (run cfgPark init parkTrace).map rank = some 28 := by decide
+example : (run cfgPark init (parkTrace ++ [.rxDoneDrop])).map rank = none ∨
+    ((run cfgPark init (parkTrace ++ [.rxDoneDrop])).map rank).getD 0 < 28 := by decide
 
 example : ∃ s, Reachable cfgPark s ∧ s.closed = true ∧ s.mutex = some .rx ∧
     (∃ p r, s.rx = .sending p r) ∧ step cfgPark s .rxDeliver = none ∧ step cfgPark s .rxDoneDrop = none :=
